@@ -42,7 +42,7 @@ DOCSTYLES = ["reStructuredText", "NumPy", "Google", "Accessible", "Blank"]
 NAMES = [n for n in S.HOSTILE_NAMES if n != "type"]
 # named types are called <name>Kind here: <Name>Type is what the generator falls back to for a reserved class name (True, None,
 # Any, Meta ...) without checking that the name is free (recorded finding reserved-class-name-fallback-collides-with-named-type)
-XOPTS = S.Opts(hostile=True, name_pool=NAMES, type_suffix="Kind")
+XOPTS = S.Opts(hostile=True, name_pool=NAMES, type_suffix="Kind", components=True)
 
 KEYWORDISH = {"class", "def", "return", "import", "None", "True", "match", "type", "async", "await", "lambda", "global", "nonlocal", "yield",
               "try", "pass", "del", "in", "is", "not", "or", "and", "if", "else", "for", "while", "from", "as", "assert", "break", "continue",
